@@ -209,6 +209,12 @@ pub fn run_one(out: &mut Out, sc: usize, s: &J) {
     if sc < RESUME.with(|r| r.get()).0 { return; }          // finished before the restart: its events are already in the trace
     let mut t = Tally { tried: 0, err: 0, ok: 0, panic: 0 };
     match s["kind"].as_str().unwrap() {
+        // one input as it is (made by the orchestrator: e.g. Byron payloads with a recomputed checksum)
+        "raw" => {
+            let ty = s["type"].as_str().unwrap();
+            try_one(out, sc, ty, get_bytes(&s["bytes"]), json!({"op": "raw"}), &mut t);
+            out.ev(json!({"ev": "ParseBatch", "sc": sc, "kind": "raw", "type": ty, "tried": t.tried, "err": t.err, "ok": t.ok, "panic": t.panic}));
+        }
         "base" => {
             let ty = s["type"].as_str().unwrap();
             let b = get_bytes(&s["bytes"]);
